@@ -323,6 +323,7 @@ def run_one(seed, i, tier):
                       "unserialisable_content": int(out["bad"] == "bigint")},
            "stats": {"saves": 1, "distinct_states": out["nstates"]},
            "sigs": [digest([out["label"], cfg["family"], cfg["wc"], cfg["threading"], k]) for k in range(out["nstates"])]}
+    res["logd"] = digest([out["label"], out["nstates"], out["nevents"], out["torn"], out["raised"], out["viol"] and out["viol"]["kind"]])
     if i % 199 == 0 or out["viol"]:
         res["sample"] = {"run_index": i, "save": out["label"], "family": cfg["family"], "write_concern": cfg["wc"], "threading": cfg["threading"],
                          "crash_points": out["nevents"], "distinct_directory_states": out["nstates"], "torn_prefixes": out["torn"], "raised": out["raised"]}
